@@ -139,7 +139,9 @@ class Hist:
         r = self.r
         if r.random() < self.hostile:
             return "".join(r.choice(ALPHA) for _ in range(r.randint(0, 4)))
-        return r.choice(["t", "ab", "x y", "é", "12", "", "a-b", "a]]", ">b", "]", "]>x", "a-x-b", "ab-c", "]]x>"])
+        # white space at either end matters where the serialization has a separator next to the data (<?t data?>)
+        return r.choice(["t", "ab", "x y", "é", "12", "", "a-b", "a]]", ">b", "]", "]>x", "a-x-b", "ab-c", "]]x>",
+                         " x", "  x y ", "\n\tz", "\tq ", " ", "x\r\ny", "\u00a0x"])
 
     def h(self, i):
         return "h%d" % i
